@@ -43,6 +43,10 @@ var (
 	nSeq    = flag.Int("nseq", 40, "sequential specification cases")
 	pace    = flag.Duration("pace", 8*time.Millisecond, "max random pause of a client between operations")
 	noNem   = flag.Bool("nonemesis", false, "no faults")
+	snapCnt = flag.Int("snapcount", 0, "raft SnapCount of the namespace (0 = the default, no snapshot during a run)")
+	nemKind = flag.String("nemkind", "all", "all | restarts (only graceful restarts of followers, in quick succession)")
+	mixF    = flag.String("mix", "all", "all | nonidem (mostly INCR / HINCRBY / LPUSH / LPOP)")
+	lossDur = flag.Duration("lossdur", 0, "directed scenario 'follower forgets acknowledged entries' (0 = skip): writes through the leader for this long")
 	partF   = flag.Bool("partitions", false, "nemesis also cuts raft links between replicas (thorough tier)")
 	minB    = flag.Int("minb", 24, "min operations per key before it is retired")
 	maxB    = flag.Int("maxb", 40, "max operations per key before it is retired")
@@ -89,14 +93,14 @@ func startCluster(dir string, base int, mode, eng string) (*cluster, error) {
 		d := path.Join(dir, fmt.Sprintf("r%d", i))
 		os.MkdirAll(d, 0700)
 		if mode == "procs" {
-			k := &childRep{id: i, dir: d, base: base, engine: eng}
+			k := &childRep{id: i, dir: d, base: base, engine: eng, snapCount: *snapCnt}
 			if err := k.spawn(); err != nil {
 				return c, err
 			}
 			c.kids = append(c.kids, k)
 			c.reps = append(c.reps, k)
 		} else {
-			r, err := newReplica(i, d, base, eng)
+			r, err := newReplica(i, d, base, eng, *snapCnt)
 			if err != nil {
 				return c, err
 			}
@@ -192,6 +196,7 @@ type nemesis struct {
 	done       chan struct{}
 	procs      bool
 	partitions bool
+	kind       string
 }
 
 func (n *nemesis) log(what string, err error) {
@@ -213,7 +218,35 @@ func (n *nemesis) sleep(d time.Duration) bool {
 	}
 }
 
+// runRestarts: graceful restarts of a follower in quick succession while the load goes on (with a low SnapCount
+// every restart restores the replica's latest checkpoint and replays the log from there).
+func (n *nemesis) runRestarts() {
+	defer close(n.done)
+	for {
+		if !n.sleep(time.Duration(350+n.rng.Intn(300)) * time.Millisecond) {
+			return
+		}
+		lead := n.c.leader()
+		victim := n.rng.Intn(nReplica)
+		if victim == lead {
+			victim = (victim + 1) % nReplica
+		}
+		err := n.c.reps[victim].CloseNS()
+		n.log(fmt.Sprintf("stop %d (leader=%d)", victim, lead), err)
+		alive := n.sleep(time.Duration(200+n.rng.Intn(250)) * time.Millisecond)
+		err = n.c.reps[victim].OpenNS()
+		n.log(fmt.Sprintf("restart %d", victim), err)
+		if !alive {
+			return
+		}
+	}
+}
+
 func (n *nemesis) run() {
+	if n.kind == "restarts" {
+		n.runRestarts()
+		return
+	}
 	defer close(n.done)
 	for {
 		if !n.sleep(time.Duration(700+n.rng.Intn(1500)) * time.Millisecond) {
@@ -383,6 +416,7 @@ type meta struct {
 	Targets     map[string]int               `json:"targets"`
 	Seq         int                          `json:"seq_cases"`
 	RaceRounds  int                          `json:"race_rounds"`
+	Directed    []nemEvent                   `json:"directed,omitempty"`
 	PairRounds  int                          `json:"pair_rounds"`
 	Extra       map[string]map[string]string `json:"extra,omitempty"`
 }
@@ -468,7 +502,7 @@ func main() {
 		return
 	}
 	if *zrnode {
-		runChild(*idF, *dirF, *port, *engineF)
+		runChild(*idF, *dirF, *port, *engineF, *snapCnt)
 		return
 	}
 	os.MkdirAll(*outDir, 0755)
@@ -503,6 +537,7 @@ func main() {
 	fmt.Printf("cluster up after %.1fs, leader %d\n", float64(nowUs())/1e6, c.leader())
 
 	w := newWorkload(*seed, 3, *minB, *maxB, *maxUnk)
+	w.nonIdem = *mixF == "nonidem"
 	rng := rand.New(rand.NewSource(*seed*7919 + 13))
 
 	// ---- phase 1: sequential specification cases (no faults)
@@ -540,7 +575,7 @@ func main() {
 	var hist []string
 	if *replay == "" && *dur > 0 {
 		nem := &nemesis{c: c, rng: rand.New(rand.NewSource(*seed*104729 + 7)), stop: make(chan struct{}),
-			done: make(chan struct{}), procs: *mode == "procs", partitions: *partF}
+			done: make(chan struct{}), procs: *mode == "procs", partitions: *partF, kind: *nemKind}
 		// leader hint for the readers
 		hintStop := make(chan struct{})
 		go func() {
@@ -561,6 +596,9 @@ func main() {
 		for i := 0; i < *nCli; i++ {
 			tcl = append(tcl, &client{id: 50 + i, addrs: c.addrs, conns: make([]*goredis.Conn, nReplica),
 				rng: rand.New(rand.NewSource(*seed*37 + int64(i)*7919)), opTO: 6 * time.Second})
+		}
+		if *lossDur > 0 {
+			m.Directed = append(m.Directed, runForgetAcked(c, w, *seed, *lossDur)...)
 		}
 		if *raceDur > 0 {
 			m.RaceRounds = runRaces(w, tcl, time.Now().Add(*raceDur), rng)
@@ -639,6 +677,51 @@ func main() {
 		m.Keys = len(keys)
 		m.Dumps = make([]map[string]string, len(c.reps))
 		m.DumpErr = make([]string, len(c.reps))
+		finalFrom := map[int]bool{}
+		if !settled {
+			// The cluster did not converge within its budget. The replicas that ARE up to date with the current
+			// leader (same applied index, nothing committed but unapplied, stable over two polls, every client
+			// stopped for seconds) must still hold every acknowledged write: they are read; the others are not.
+			l := c.waitLeader(10 * time.Second)
+			if l >= 0 {
+				pick := func() (uint64, []int) {
+					sl, err := c.reps[l].Status()
+					if err != nil || !sl.Up || sl.Commit != sl.Applied {
+						return 0, nil
+					}
+					var ok []int
+					for i, r := range c.reps {
+						st, err := r.Status()
+						if err == nil && st.Up && st.Applied == sl.Applied && st.Commit == st.Applied {
+							ok = append(ok, i)
+						}
+					}
+					return sl.Applied, ok
+				}
+				a1, ok1 := pick()
+				time.Sleep(400 * time.Millisecond)
+				a2, ok2 := pick()
+				if a1 == a2 && len(ok1) == len(ok2) && len(ok2) >= 2 && l == c.leader() {
+					for _, i := range ok2 {
+						finalFrom[i] = true
+					}
+				}
+			}
+			for i, r := range c.reps {
+				st, _ := r.Status()
+				m.Nemesis = append(m.Nemesis, nemEvent{At: nowUs(), What: fmt.Sprintf("not-settled: replica %d up=%v lead=%v applied=%d commit=%d final-read=%v",
+					i, st.Up, st.Lead, st.Applied, st.Commit, finalFrom[i])})
+			}
+			for i, r := range c.reps {
+				if finalFrom[i] {
+					if d, err := r.Dump(keys); err == nil {
+						m.Dumps[i] = d
+					} else {
+						m.DumpErr[i] = err.Error()
+					}
+				}
+			}
+		}
 		for try := 0; settled && try < 3; try++ {
 			for i, r := range c.reps {
 				m.Dumps[i], m.DumpErr[i] = nil, ""
@@ -661,7 +744,7 @@ func main() {
 		tfin := nowUs() + 1000
 		for _, k := range keys {
 			g := groups[k]
-			if settled {
+			if settled || len(finalFrom) > 0 {
 				for i := range c.reps {
 					if m.Dumps[i] == nil {
 						continue
@@ -724,4 +807,82 @@ func main() {
 		fmt.Println("NOT-SETTLED: the cluster did not settle after the load (no final replica reads)")
 	}
 	os.Exit(0) // the servers' own Stop sleeps for seconds; the data directories are already gone
+}
+
+// runForgetAcked is a fixed fault schedule (a few seconds): does a follower that restarts forget log entries it
+// has already acknowledged to the leader?
+//  1. the link leader -> F2 is cut: F2 lags, every commit now needs F1's acknowledgement;
+//  2. clients write through the leader; after dur the link leader -> F1 is cut too (F1's acknowledgements still
+//     reach the leader, but F1 no longer learns the commit index of the last entries it acknowledged);
+//  3. F1 is restarted gracefully; 4. the leader is stopped, the links are healed and F1 + F2 must carry on with
+//     every acknowledged write; 5. the old leader is started again and the cluster settles.
+//
+// The operations are ordinary recorded operations (judged by the checker together with the final replica reads).
+func runForgetAcked(c *cluster, w *workload, seed int64, dur time.Duration) []nemEvent {
+	var evs []nemEvent
+	ev := func(what string, err error) {
+		e := nemEvent{At: nowUs(), What: what}
+		if err != nil {
+			e.Err = err.Error()
+		}
+		evs = append(evs, e)
+	}
+	l := c.waitLeader(10 * time.Second)
+	if l < 0 {
+		ev("forget-acked skipped: no leader", nil)
+		return evs
+	}
+	f1, f2 := (l+1)%nReplica, (l+2)%nReplica
+	lid := []uint64{uint64(l + 1)}
+	ev(fmt.Sprintf("cut %d->%d", l, f2), c.reps[f2].Block(lid))
+	var stop int32
+	var wg sync.WaitGroup
+	for i := 0; i < 12; i++ {
+		cl := &client{id: 70 + i, addrs: c.addrs, conns: make([]*goredis.Conn, nReplica),
+			rng: rand.New(rand.NewSource(seed*41 + int64(i)*104729)), opTO: 6 * time.Second}
+		wg.Add(1)
+		go func(cl *client) {
+			defer wg.Done()
+			for atomic.LoadInt32(&stop) == 0 {
+				o, op := w.next()
+				rec, sent := cl.do(l, o.key, op)
+				if sent {
+					w.record(o, rec)
+				}
+				if !sent || rec.Ret < 0 {
+					time.Sleep(20 * time.Millisecond)
+				}
+			}
+			for i := range cl.conns {
+				cl.drop(i)
+			}
+		}(cl)
+	}
+	time.Sleep(dur)
+	ev(fmt.Sprintf("cut %d->%d", l, f1), c.reps[f1].Block(lid))
+	time.Sleep(100 * time.Millisecond)
+	atomic.StoreInt32(&stop, 1)
+	ev(fmt.Sprintf("stop %d (follower)", f1), c.reps[f1].CloseNS())
+	time.Sleep(300 * time.Millisecond)
+	ev(fmt.Sprintf("restart %d", f1), c.reps[f1].OpenNS())
+	ev(fmt.Sprintf("stop %d (leader)", l), c.reps[l].CloseNS())
+	wg.Wait()
+	for i := range c.reps {
+		c.reps[i].Block(nil)
+	}
+	ev("heal", nil)
+	// the two followers carry on
+	dl := time.Now().Add(20 * time.Second)
+	for time.Now().Before(dl) {
+		s1, _ := c.reps[f1].Status()
+		s2, _ := c.reps[f2].Status()
+		if s1.Up && s2.Up && (s1.Lead || s2.Lead) && s1.Applied == s2.Applied && s1.Commit == s1.Applied && s2.Commit == s2.Applied {
+			break
+		}
+		time.Sleep(100 * time.Millisecond)
+	}
+	ev(fmt.Sprintf("restart %d (old leader)", l), c.reps[l].OpenNS())
+	_, ok := c.waitSettled(30 * time.Second)
+	ev(fmt.Sprintf("settled=%v", ok), nil)
+	return evs
 }
